@@ -208,7 +208,12 @@ class P:
         if tok in ("break", "continue"):
             self.eat(); self.eat(";")
             return (tok,)
-        if tok in ("goto", "switch", "new", "delete"):
+        if tok == "goto":
+            self.eat()
+            lab = self.eat()
+            self.eat(";")
+            return ("goto", lab)
+        if tok in ("switch", "new", "delete"):
             raise Refuse(f"{self.fn}: statement `{tok}` is outside the translated subset")
         # declaration?
         if tok in ("Item", "usize", "ssize", "Iterator") and self.peek(1) not in ("->", "=", "(", "."):
@@ -216,7 +221,7 @@ class P:
             if self.peek() == "*":
                 self.eat("*"); ty += "*"
                 if self.peek() == "*":
-                    raise Refuse(f"{self.fn}: pointer to pointer")
+                    self.eat("*"); ty += "*"
             if self.peek() == "&":
                 self.eat("&"); ty += "&"
             name = self.eat()
@@ -295,7 +300,13 @@ class P:
         if tok == "++":
             self.eat()
             return ("preinc", self.unary())
-        if tok in ("*", "&", "--", "~"):
+        if tok == "&":
+            self.eat()
+            return ("addr", self.unary())
+        if tok == "*":
+            self.eat()
+            return ("deref", self.unary())
+        if tok in ("--", "~"):
             raise Refuse(f"{self.fn}: operator `{tok}` is outside the translated subset")
         return self.postfix()
 
@@ -632,7 +643,7 @@ LEAN_TY = {"ptr": "Nat", "usize": "Nat", "ssize": "Int", "key": "Int", "cell": "
 
 
 def always_exits(s):
-    if s[0] in ("return", "break", "continue"):
+    if s[0] in ("return", "break", "continue", "goto", "exit"):
         return True
     if s[0] == "block":
         return bool(s[1]) and always_exits(s[1][-1])
@@ -685,7 +696,7 @@ class Tr2(Tr):
 
     # -- results
     def res_type(self):
-        parts = ([] if self.pure else ["Heap"]) + ({"void": [], "ptr": ["Nat"], "usize": ["Nat"]}[self.ret]) + (["Nat"] if self.counting else [])
+        parts = ([] if self.pure else ["Heap"]) + ({"void": [], "ptr": ["Nat"], "usize": ["Nat"], "ptrtag": ["Nat × Nat"]}[self.ret]) + (["Nat"] if self.counting else [])
         t = " × ".join(parts) if parts else "Unit"
         return f"Option ({t})" if self.fuel else t
 
@@ -696,6 +707,17 @@ class Tr2(Tr):
 
     def binders(self, env_items):
         return "".join(f" ({lean_name(n)} : {LEAN_TY[ty]})" for n, ty in env_items)
+
+    exits = None
+
+    def lvaddr(self, e, env):
+        """Cell for an expression of type Item**: `&lvalue` or a ?: of such"""
+        e = self.strip(e)
+        if e[0] == "addr":
+            return self.lv(e[1], env)
+        if e[0] == "tern":
+            return f"(if {self.cond(e[1], env)} then {self.lvaddr(e[2], env)} else {self.lvaddr(e[3], env)})"
+        raise Refuse(f"{self.fn}: Item** initialised with `{e[0]}`")
 
     # -- conditions with counting
     def is_keycmp(self, e, env):
@@ -753,6 +775,12 @@ class Tr2(Tr):
             if ty != self.ret:
                 raise Refuse(f"{self.fn}: returns {ty}, declared {self.ret}")
             return self.result(t, ind)
+        if k == "goto":
+            if self.exits is None or s[1] not in self.exits:
+                raise Refuse(f"{self.fn}: goto {s[1]}")
+            return self.exits[s[1]](env, ind)
+        if k == "exit":
+            return s[1](env, ind)
         if k in ("break", "continue"):
             if lp is None:
                 raise Refuse(f"{self.fn}: `{k}` outside a loop")
@@ -765,9 +793,17 @@ class Tr2(Tr):
             if ty == "Item*&":
                 env2[name] = "cell"
                 return f"{ind}let {lean_name(name)} : Cell := {self.lv(init, env)}\n" + self.stmts2(rest, env2, ind, lp)
+            if ty == "Item**":
+                # a pointer to an Item* lvalue: only ever initialised with `&lvalue` (or a ?: of such) and used as `*name`
+                env2[name] = "cellptr"
+                return f"{ind}let {lean_name(name)} : Cell := {self.lvaddr(init, env)}\n" + self.stmts2(rest, env2, ind, lp)
             if ty not in FIELD_TYPES or ty == "T":
                 raise Refuse(f"{self.fn}: local of type `{ty}`")
             lt = FIELD_TYPES[ty]
+            if init is not None and self.strip(init)[0] == "assign":
+                # `T a = b = e;`  is  `b = e; T a = b;`
+                inner = self.strip(init)
+                return self.stmts2([("expr", inner), ("decl", ty, name, inner[1])] + rest, env, ind, lp)
             env2[name] = lt
             if init is None:
                 # uninitialised local: every read must be preceded by a store (not checked); it starts as 0 / null here
@@ -804,6 +840,14 @@ class Tr2(Tr):
             if e[0] == "assign":
                 rhs = self.strip(e[2])
                 lhs = self.strip(e[1])
+                if lhs[0] == "deref":
+                    x = self.strip(lhs[1])
+                    if x[0] != "id" or env.get(x[1]) != "cellptr":
+                        raise Refuse(f"{self.fn}: store through `*` of something that is not an Item** local")
+                    t, tt = self.rv(rhs, env, "ptr")
+                    if tt != "ptr":
+                        raise Refuse(f"{self.fn}: {tt} stored through an Item**")
+                    return f"{ind}let h := h.set {lean_name(x[1])} {t}\n" + self.stmts2(rest, env, ind, lp)
                 if rhs[0] == "call" and rhs[1] in self.info:
                     if lhs[0] != "id" or lhs[1] not in env:
                         raise Refuse(f"{self.fn}: result of `{rhs[1]}` stored into something that is not a local")
@@ -1062,6 +1106,27 @@ def translate_header(path):
     pre = sorted(pre + hoisted, key=lambda d: d[2])
     asts["insertRebalance"] = (pre + items, [("ptr", "parent")], "void")
     order2.append("insertRebalance")
+    # the head of remove(it): cell computation, the three trivial cases, the choice of the neighbour
+    m = re.search(r"Iterator\s+remove\s*\(\s*const\s+Iterator\s*&\s*(\w+)\s*\)\s*\{", src)
+    if not m:
+        raise Refuse("remove(const Iterator&) not found")
+    rbody = src[m.end():balanced(src, m.end() - 1) - 1]
+    ml = re.search(r"\brebalParent\s*:", rbody)
+    if not ml:
+        raise Refuse("remove: label rebalParent not found")
+    head = rbody[:ml.start()]
+    if head.count("{") != head.count("}"):
+        raise Refuse("remove: the label rebalParent is not at the top level of the function")
+    toks = tokenize(head)
+    norm["removeHead"] = toks
+    p = P(toks, "removeHead")
+    items = p.block_items()
+    if p.peek() is not None or not items or items[-1][0] != "if" or not always_goto(items[-1][2], "rebalParent") \
+            or not always_goto(items[-1][3], "rebalParent"):
+        raise Refuse("removeHead: the statements in front of `rebalParent:` do not end with the two-children if/else "
+                     "whose branches both go to rebalParent")
+    asts["removeHead"] = (items, [("ptr", m.group(1))], "ptrtag")
+    order2.append("removeHead")
     pure_of = {fn: False for fn in FUNCS}
     for fn in order2:
         items, params, ret = asts[fn]
@@ -1073,10 +1138,31 @@ def translate_header(path):
         items, params, ret = asts[fn]
         tr = Tr2(fn, sigs, fields, False, info)
         env = {name: ty for ty, name in params}
+        if fn == "removeHead":
+            def mk_exit(tag):
+                def ex(env_, ind_):
+                    if env_.get("parent") != "ptr":
+                        raise Refuse("removeHead: no Item* parent in scope at an exit")
+                    return tr.result(f"{lean_name('parent')}, {tag}", ind_)
+                return ex
+            tr.exits = {"rebalParentUpwards": mk_exit(0)}
+            last = items[-1]
+            items = items[:-1] + [("if", last[1], ("exit", mk_exit(1)), ("exit", mk_exit(2)))]
         body_l = tr.stmts2(items, env, "  ", None)
         binders = (" (fuel : Nat)" if info[fn]["fuel"] else "") + " (h : Heap)" + (" (c : Nat)" if info[fn]["counting"] else "") + tr.binders([(n, t) for t, n in params])
         out[fn] = "\n".join(tr.loops) + ("\n" if tr.loops else "") + f"def {fn}{binders} : {tr.res_type()} :=\n{body_l}"
     return out, norm, order2
+
+
+def always_goto(s, label):
+    """does the statement always end in `goto label`?"""
+    if s[0] == "goto":
+        return s[1] == label
+    if s[0] == "block":
+        return bool(s[1]) and always_goto(s[1][-1], label)
+    if s[0] == "if":
+        return always_goto(s[2], label) and always_goto(s[3], label)
+    return False
 
 
 def _calls(n):
